@@ -449,7 +449,8 @@ impl<'a> Compiler<'a> {
                         .iter()
                         .take(depth)
                         .flat_map(|x| [x.as_ref(), "."])
-                        .chain([alias, ".", s.unwrap_or(suffix)].iter().copied())
+                        // the module path is what follows the `super.` steps of the import
+                        .chain([s.unwrap_or(alias), ".", suffix].iter().copied())
                         .collect::<String>();
 
                     to = jump_table.get(&name);
